@@ -29,22 +29,38 @@ func VerifFrozen(v Value) (frozen, ok bool) {
 func VerifLNTDecoded(fn *Function) bool { return compile.VerifLNTDecoded(fn.funcode) }
 
 // VerifHeader returns a copy of the bytes of the Go object behind a list, dict,
-// set or function (the List / hashtable / Function struct itself, not what it
-// points to), and the offsets of the frozen flag and of the iterator count in
-// it (-1 if the kind has none). Read-only; for observing which operations write
-// to an object. ok is false for any other value.
+// set or function (the List / hashtable / Function struct itself), followed by
+// the bytes of the memory it owns (a list's element array up to its capacity; a
+// hash table's bucket array and overflow buckets), and the offsets of the frozen
+// flag and of the iterator count in it (-1 if the kind has none). Read-only; for
+// observing which operations write to an object. ok is false for any other value.
 func VerifHeader(v Value) (b []byte, frozenOff, iterOff int, ok bool) {
 	switch v := v.(type) {
 	case *List:
-		return verifBytes(unsafe.Pointer(v), unsafe.Sizeof(*v)), int(unsafe.Offsetof(v.frozen)), int(unsafe.Offsetof(v.itercount)), true
+		b = verifBytes(unsafe.Pointer(v), unsafe.Sizeof(*v))
+		if c := cap(v.elems); c > 0 {
+			all := v.elems[:c]
+			b = append(b, verifBytes(unsafe.Pointer(&all[0]), uintptr(c)*unsafe.Sizeof(all[0]))...)
+		}
+		return b, int(unsafe.Offsetof(v.frozen)), int(unsafe.Offsetof(v.itercount)), true
 	case *Dict:
-		return verifBytes(unsafe.Pointer(&v.ht), unsafe.Sizeof(v.ht)), int(unsafe.Offsetof(v.ht.frozen)), int(unsafe.Offsetof(v.ht.itercount)), true
+		return verifTable(&v.ht), int(unsafe.Offsetof(v.ht.frozen)), int(unsafe.Offsetof(v.ht.itercount)), true
 	case *Set:
-		return verifBytes(unsafe.Pointer(&v.ht), unsafe.Sizeof(v.ht)), int(unsafe.Offsetof(v.ht.frozen)), int(unsafe.Offsetof(v.ht.itercount)), true
+		return verifTable(&v.ht), int(unsafe.Offsetof(v.ht.frozen)), int(unsafe.Offsetof(v.ht.itercount)), true
 	case *Function:
 		return verifBytes(unsafe.Pointer(v), unsafe.Sizeof(*v)), int(unsafe.Offsetof(v.frozen)), -1, true
 	}
 	return nil, -1, -1, false
+}
+
+func verifTable(ht *hashtable) []byte {
+	b := verifBytes(unsafe.Pointer(ht), unsafe.Sizeof(*ht))
+	for i := range ht.table {
+		for p := &ht.table[i]; p != nil; p = p.next {
+			b = append(b, verifBytes(unsafe.Pointer(p), unsafe.Sizeof(*p))...)
+		}
+	}
+	return b
 }
 
 func verifBytes(p unsafe.Pointer, n uintptr) []byte {
